@@ -24,7 +24,7 @@ RULE = (
     "(acyclic anchor chains; cyclic ones are contradictory input, counted and excluded); plus class-level order([...]) "
     "for every permutation and order({...}) mapping overrides, and inheritance (spec in base / override in derived) for "
     "n<=3; plus classes of 3 fields where the anchor of an after / before is absent from some views (skip(serialization=True), "
-    "skip(deserialization=True), init=False, InitVar). Four views must be the same permutation (projected on the elements a view contains): keys of serialize(), "
+    "skip(deserialization=True), init=False, InitVar). Five views must be the same permutation (projected on the elements a view contains): keys of serialize() (also under PassThroughOptions(dataclasses=True), a passed-through instance being emitted in declaration order), "
     "properties of serialization_schema and deserialization_schema, field order of the GraphQL object type; and equal to "
     "the reference order. distinct_nontrivial counts distinct (n, split, spec) classes."
 )
@@ -148,6 +148,13 @@ def views(mod, cname: str, gql_types) -> Dict[str, List[str]]:
     cls = getattr(mod, cname)
     out = {}
     out["serialize"] = list(serialize(cls, cls()))
+    # the same keys when dataclasses may be passed through to a JSON library emitting them natively (declaration order)
+    import dataclasses as _dc
+
+    from apischema import PassThroughOptions
+
+    pt = serialize(cls, cls(), pass_through=PassThroughOptions(dataclasses=True))
+    out["serialize_pass_through"] = [f.name for f in _dc.fields(pt)] if _dc.is_dataclass(pt) else list(pt)
     out["serialization_schema"] = list(serialization_schema(cls).get("properties", {}))
     out["deserialization_schema"] = list(deserialization_schema(cls).get("properties", {}))
     if gql_types is not None and cname in gql_types:
@@ -174,7 +181,7 @@ def check_class(mod, cname, names, spec, st, gql_types, extra_what=""):
         st.violation({"signature": {"kind": "exception", "exc": type(e).__name__}, "what": f"{cname} {spec}: {e!r}"[:300], "spec": repr(spec), "n": [len(fields), len(names) - len(fields)]})
         return
     st.case(len(fields), len(names) - len(fields), tuple(sorted((k, repr(x)) for k, x in spec.items())), extra_what)
-    expected = {"serialize": exp, "serialization_schema": exp, "deserialization_schema": exp_fields, "graphql": exp_fields, "definitions_both": exp_fields}
+    expected = {"serialize": exp, "serialize_pass_through": exp, "serialization_schema": exp, "deserialization_schema": exp_fields, "graphql": exp_fields, "definitions_both": exp_fields}
     for view, got in v.items():
         if got != expected[view]:
             lost = sorted(set(expected[view]) - set(got))
